@@ -369,9 +369,16 @@ class ListT(AdtT):
             else:
                 hyp_q = hyp
             step = z3.substitute(body, (ind_var, self.cons(h, ih_t)))
-            U.lemma_obligs.append((n + "." + name + ".base", [], base))
-            U.lemma_obligs.append((n + "." + name + ".step", [hyp_q], step))
+            U.lemma_obligs.append((n + "." + name + ".base", [], base, len(U.lemmas) - 1))
+            U.lemma_obligs.append((n + "." + name + ".step", [hyp_q], step, len(U.lemmas) - 1))
 
+        def rule(name, vars_, body, pats):
+            """computation rule on a constructor pattern: direct consequence of the definition (one unfolding)"""
+            U.lemmas.append((n + "." + name, (vars_, body, pats)))
+            U.lemma_obligs.append((n + "." + name, [], body, len(U.lemmas) - 1))
+
+        rule("app_nil_l", [b], app(self.nil, b) == b, [app(self.nil, b)])
+        rule("app_cons", [h, ih_t, b], app(self.cons(h, ih_t), b) == self.cons(h, app(ih_t, b)), [app(self.cons(h, ih_t), b)])
         lem("app_nil_r", [a], app(a, self.nil) == a, [app(a, self.nil)], a)
         lem("app_assoc", [a, b, c], app(app(a, b), c) == app(a, app(b, c)), [app(app(a, b), c)], a)
         lem("len_nonneg", [a], ln(a) >= 0, [ln(a)], a)
@@ -445,7 +452,9 @@ class DictT(AdtT):
         wf = rec_function(n + "_wf", S, z3.BoolSort())
         add_definition(wf, [a], z3.If(self.is_nil(a), True,
                                            z3.And(z3.Not(has(self.tl(a), self.k(a))), wf(self.tl(a)))))
-        self._fn = dict(has=has, get=get, set=st, delete=rm, app=app, len=ln, wf=wf)
+        disj = rec_function(n + "_disj", S, S, z3.BoolSort())
+        add_definition(disj, [a, b], z3.If(self.is_nil(b), True, z3.And(z3.Not(has(a, self.k(b))), disj(a, self.tl(b)))))
+        self._fn = dict(has=has, get=get, set=st, delete=rm, app=app, len=ln, wf=wf, disj=disj)
         U = self.U
         ih_t = z3.Const(n + "_t", S)
         hk = z3.Const(n + "_hk", K)
@@ -458,10 +467,24 @@ class DictT(AdtT):
             hyp = z3.substitute(body, (ind_var, ih_t))
             hyp_q = z3.ForAll(others, hyp) if others else hyp
             step = z3.substitute(body, (ind_var, self.cons(hk, hv, ih_t)))
-            U.lemma_obligs.append((n + "." + name + ".base", [], base))
-            U.lemma_obligs.append((n + "." + name + ".step", [hyp_q], step))
+            U.lemma_obligs.append((n + "." + name + ".base", [], base, len(U.lemmas) - 1))
+            U.lemma_obligs.append((n + "." + name + ".step", [hyp_q], step, len(U.lemmas) - 1))
+
+        def rule(name, vars_, body, pats):
+            U.lemmas.append((n + "." + name, (vars_, body, pats)))
+            U.lemma_obligs.append((n + "." + name, [], body, len(U.lemmas) - 1))
 
         one = lambda kk, vv: self.cons(kk, vv, self.nil)
+        rule("app_nil_l", [b], app(self.nil, b) == b, [app(self.nil, b)])
+        rule("app_cons", [hk, hv, ih_t, b], app(self.cons(hk, hv, ih_t), b) == self.cons(hk, hv, app(ih_t, b)),
+             [app(self.cons(hk, hv, ih_t), b)])
+        rule("has_nil", [k], has(self.nil, k) == z3.BoolVal(False), [has(self.nil, k)])
+        rule("has_cons", [hk, hv, ih_t, k], has(self.cons(hk, hv, ih_t), k) == z3.Or(hk == k, has(ih_t, k)),
+             [has(self.cons(hk, hv, ih_t), k)])
+        rule("disj_nil_r", [a], disj(a, self.nil) == z3.BoolVal(True), [disj(a, self.nil)])
+        rule("disj_cons", [a, hk, hv, ih_t], disj(a, self.cons(hk, hv, ih_t)) == z3.And(z3.Not(has(a, hk)), disj(a, ih_t)),
+             [disj(a, self.cons(hk, hv, ih_t))])
+        lem("disj_nil_l", [b], disj(self.nil, b), [disj(self.nil, b)], b)
         lem("app_nil_r", [a], app(a, self.nil) == a, [app(a, self.nil)], a)
         c = z3.Const(n + "_c", S)
         lem("app_assoc", [a, b, c], app(app(a, b), c) == app(a, app(b, c)), [app(app(a, b), c)], a)
@@ -472,6 +495,8 @@ class DictT(AdtT):
         lem("get_app_r", [a, b, k], z3.Implies(z3.Not(has(a, k)), get(app(a, b), k) == get(b, k)),
             [get(app(a, b), k)], a)
         lem("has_set", [a, k, v, k2], has(st(a, k, v), k2) == z3.Or(k2 == k, has(a, k2)), [has(st(a, k, v), k2)], a)
+        lem("disj_set", [a, b, k, v], z3.Implies(z3.And(disj(a, b), z3.Not(has(b, k))), disj(st(a, k, v), b)),
+            [disj(st(a, k, v), b)], b)
 
     def fn(self, k):
         return self._fn[k]
